@@ -32,7 +32,7 @@ macro_rules! stats_struct {
 }
 stats_struct!(
     bodies, applies, deliveries, postponed, max_postponed_one_target, nested_replay, skipped_dead, skipped_dead_postponed, optional_taken, optional_skipped, polled_events, polled_in_tree, polled_reactions, payloads, payload_zero_listeners, payload_abort_release, doomed_insts, once_fired, once_retrigger_after_fire, revokes_applied, revoke_mid_dispatch, kills, kill_self, err_returns, excl_bodies, registrations, reg_dead_entity, slot_respawn, max_depth, roots, multi_kind_same_tree, sibling_reorder, frames, guaranteed_gc, guaranteed_poll, a1_ambiguous, ewr_bodies, ewr_nodata_ok, inserts_dead_at_apply, setifneq_equal, setifneq_diff, removal_reinsert_removal, sig_zero, entity_recursive_despawn, fifo_pairs_checked, sys_calls, reactors_per_key_ge7,
-    probes, ev_total, replayed, sys_recursive, acc_ops, single_acc, app_setup_again, bulk_collected, max_bulk, ewr_readd, res_removed, res_trigger_while_absent, excl_flushed_in_body, sig_zero_during_gc, sig_moved_into_entity, collected_observed, sig_zero_in_tree, payload_owned_signal_released, sys_cleared, dw_bodies, dw_self_postponed, dw_self_ran, polled_after_last_poll, sys_dw_calls, excl_flushed_mid_trigger, trigger_raced_pending
+    probes, ev_total, replayed, sys_recursive, acc_ops, single_acc, app_setup_again, bulk_collected, max_bulk, ewr_readd, res_removed, res_trigger_while_absent, excl_flushed_in_body, sig_zero_during_gc, sig_moved_into_entity, collected_observed, sig_zero_in_tree, payload_owned_signal_released, sys_cleared, dw_bodies, dw_self_postponed, dw_self_ran, polled_after_last_poll, sys_dw_calls, excl_flushed_mid_trigger, trigger_raced_pending, rc_inst_released, rc_scratch, sys_reinserted
 );
 
 #[derive(Clone, Debug)]
@@ -101,6 +101,8 @@ struct InstM
     /// its last handle may or may not have been released (a revoke raced an invisible poll): alive or collected, unknown
     limbo: bool,
     busy: bool,
+    /// ref-counted system command whose signal the harness has dropped
+    sig_released: bool,
     /// executing or just back in place: a command for it may be postponed or run (see `run`, `DeferredW`)
     busy_unknown: bool,
     runs: u32,
@@ -303,6 +305,7 @@ pub struct Checker<'a>
     gc_pending_deadline: bool,
     /// entities a collection inside a tree / batch should have taken: judged at the end of the step
     gc_overdue: Vec<EntId>,
+    gc_overdue_insts: Vec<usize>,
     gc_before: Vec<bool>,
     /// entities whose last signal clone went inside the current root tree: every runner exit collects, so they must be gone
     /// when the tree ends
@@ -338,7 +341,7 @@ impl<'a> Checker<'a>
     pub fn new(prog: &'a Program, trace: &'a [Ev], hooks: bool) -> Self
     {
         let insts = prog.insts.iter().map(|d| InstM {
-            origin: d.origin, known: false, created: false, alive: false, doomed: false, limbo: false, busy: false, busy_unknown: false, runs: 0,
+            origin: d.origin, known: false, created: false, alive: false, doomed: false, limbo: false, busy: false, sig_released: false, busy_unknown: false, runs: 0,
             once_fired: false, real: None, canary: false, chain_doomed: false, revoked_keys: Vec::new(), kinds_this_tree: 0,
         }).collect();
         Checker {
@@ -347,7 +350,7 @@ impl<'a> Checker<'a>
             tokens: vec![None; prog.insts.len()], res: [0, 0, 0], res_t_present: true, payloads: HashMap::new(), pending_immediate_drop: None,
             polled: Vec::new(), postponed: Vec::new(), stack: Vec::new(), tree_depth: 0, seq: 0, sender: (DRIVER, 0),
             wr_keys: [Vec::new(), Vec::new()], sigs: vec![(None, 0); 4], doomed_ents: Vec::new(), resolve_uncertain: Vec::new(), fifo: HashMap::new(),
-            gc_guaranteed_this_step: false, in_direct_step: false, in_gc: false, in_op_prologue: false, pre_targets: None, pre_ent: None, pre_t_present: None, poll_epoch: 0, sure_epoch: 0, gc_must: Vec::new(), gc_pending_deadline: false, gc_overdue: Vec::new(), gc_before: Vec::new(), doomed_in_tree: Vec::new(), sig_harness: [0; 4], deferred_bail: None, bulk_released: 0, bulk_held: 0, bulk_alive: 0, wq: Default::default(), iss_counter: 0, cur_iss: 0, iss_of: HashMap::new(), sys: Default::default(),
+            gc_guaranteed_this_step: false, in_direct_step: false, in_gc: false, in_op_prologue: false, pre_targets: None, pre_ent: None, pre_t_present: None, poll_epoch: 0, sure_epoch: 0, gc_must: Vec::new(), gc_pending_deadline: false, gc_overdue: Vec::new(), gc_overdue_insts: Vec::new(), gc_before: Vec::new(), doomed_in_tree: Vec::new(), sig_harness: [0; 4], deferred_bail: None, bulk_released: 0, bulk_held: 0, bulk_alive: 0, wq: Default::default(), iss_counter: 0, cur_iss: 0, iss_of: HashMap::new(), sys: Default::default(),
         }
     }
 
@@ -459,6 +462,7 @@ impl<'a> Checker<'a>
                     if !last_chance { return Ok(false); }
                     self.pos = fpos;
                     let persistent = !self.regs.iter().any(|r| r.inst == *i && r.refcounted);
+                    if self.prog.insts[*i as usize].rc { fail!(self, "C10", "premature-autodespawn", &["C07"], "state of the ref-counted system command {i} dropped although the clone of its signal still exists"); }
                     if persistent { fail!(self, "C07", "persistent-despawned", &["C13", "C16"], "state of instance {i} dropped although nothing despawned it"); }
                     fail!(self, "C07", "reactor-premature-despawn", &["C13"], "state of instance {i} dropped while a trigger is still registered");
                 }
@@ -540,6 +544,10 @@ impl<'a> Checker<'a>
         if s.ins.iter().flatten().any(|bits| self.ents.iter().any(|e| e.real == *bits && !e.alive))
         {
             fail!(self, "C14", "insertion-on-dead-entity", &["C18", "C01"], "instance {inst} reacted to an insertion on a despawned entity: {s:?}");
+        }
+        if s.mu.iter().flatten().any(|bits| self.ents.iter().any(|e| e.real == *bits && !e.alive) && !self.ents.iter().any(|e| e.real == *bits && e.alive))
+        {
+            fail!(self, "C14", "mutation-on-dead-entity", &["C18", "C01"], "instance {inst} reacted to a mutation of a despawned entity that nothing triggered: {s:?}");
         }
         if self.prog.insts[inst as usize].origin == Origin::Once && !s.is_empty()
         {
@@ -725,11 +733,21 @@ impl<'a> Checker<'a>
             let self_epoch = self.poll_epoch;
             if let Some((ent, c)) = rem
             {
-                for p in self.polled.iter_mut()
+                for pi in 0..self.polled.len()
                 {
-                    if !matches!(p.kind, PKind::Removal(c2) if c2 == c) { continue; }
-                    if let Some(e) = ent { if p.ent != e { continue; } }
-                    if let Some(pos) = p.must.iter().position(|(i, _)| *i == inst) { p.must.remove(pos); if p.epoch != self_epoch { p.extra.push((inst, None)); } }
+                    if !matches!(self.polled[pi].kind, PKind::Removal(c2) if c2 == c) { continue; }
+                    if let Some(e) = ent { if self.polled[pi].ent != e { continue; } }
+                    // Every registration of this reactor for the revoked trigger goes (re-added entity-scoped duplicates included);
+                    // what it still has for the same removal -- e.g. a type-wide registration next to the revoked entity-scoped one --
+                    // keeps its obligation.
+                    let remain = self.removal_listeners_now(self.polled[pi].ent, c).iter().filter(|i| **i == inst).count();
+                    let p = &mut self.polled[pi];
+                    while p.must.iter().filter(|(i, _)| *i == inst).count() > remain
+                    {
+                        let pos = p.must.iter().position(|(i, _)| *i == inst).unwrap();
+                        p.must.remove(pos);
+                        if p.epoch != self_epoch { p.extra.push((inst, None)); }
+                    }
                 }
             }
         }
@@ -847,7 +865,12 @@ impl<'a> Checker<'a>
         let before = std::mem::take(&mut self.gc_before);
         // (a reactor released *during* the pass -- by an entity the pass despawned -- may go with this pass or with the next one:
         // "the first garbage collection after" its last trigger disappeared is the next one)
-        for (i, t) in self.insts.iter_mut().enumerate() { if t.doomed && t.alive && !t.busy && before.get(i).copied().unwrap_or(true) { t.alive = false; } }
+        // (a collection requested from inside a tree or a batch may run nested inside the despawn of the very thing an enclosing
+        // collection is taking, see below: then the verdict waits for the end of the step)
+        let strict = self.in_direct_step && self.tree_depth == 0;
+        let mut later = Vec::new();
+        for (i, t) in self.insts.iter_mut().enumerate() { if t.doomed && t.alive && !t.busy && before.get(i).copied().unwrap_or(true) { if strict { t.alive = false; } else { later.push(i); } } }
+        self.gc_overdue_insts.extend(later);
         for e in std::mem::take(&mut self.gc_must)
         {
             if self.ents[e].alive
@@ -1156,7 +1179,10 @@ impl<'a> Checker<'a>
         {
             Cause::Rem(..) | Cause::Despawn(_) => fail!(self, "C08", "polled-missing", &["C01", "C02"], "instance {} was not scheduled for {:?}; next observed: {:?}", d.target, d.cause, ev),
             Cause::Manual | Cause::SysEvent(..) => fail!(self, "C02", "missing-run", &["C09"], "instance {} was not scheduled for {:?}; next observed: {:?}", d.target, d.cause, ev),
+            // (a reactor some of whose triggers were revoked earlier: "other triggers of the same reactor ... keep working", C06)
+            Cause::Ins(..) | Cause::Mut(..) | Cause::Resource(_) if !self.insts[d.target as usize].revoked_keys.is_empty() => fail!(self, "C01", "missing-reaction", &["C02", "C09", "C14", "C06"], "instance {} (some of whose other triggers were revoked earlier) was not scheduled for {:?}; next observed: {:?}", d.target, d.cause, ev),
             Cause::Ins(..) | Cause::Mut(..) | Cause::Resource(_) => fail!(self, "C01", "missing-reaction", &["C02", "C09", "C14"], "instance {} was not scheduled for {:?} (accessor / trigger call must cause one trigger); next observed: {:?}", d.target, d.cause, ev),
+            _ if !self.insts[d.target as usize].revoked_keys.is_empty() => fail!(self, "C01", "missing-reaction", &["C02", "C09", "C06"], "instance {} (some of whose other triggers were revoked earlier) was not scheduled for {:?}; next observed: {:?}", d.target, d.cause, ev),
             _ => fail!(self, "C01", "missing-reaction", &["C02", "C09"], "instance {} was not scheduled for {:?}; next observed: {:?}", d.target, d.cause, ev),
         }
     }
@@ -1479,6 +1505,9 @@ impl<'a> Checker<'a>
         // an exclusive system's cleanup is the first command on the world queue: it runs at the first flush inside the body
         if excl { if let Some(reg) = held.take() { self.drop_handle(reg); } }
         let script: &'a [Op] = prog.insts[ti].script(n);
+        // (an exclusive body that reads its event through `syscall_once` flushes the world's queue right there: commands that
+        // enclosing exclusive bodies still had pending are applied before this body's first op)
+        if excl && !self.wq.is_empty() { self.drain_wq()?; }
         let dw = def.flavour == Flavour::DeferredW;
         if dw { self.stats.dw_bodies += 1; }
         let (issued, err) = self.issue_script(script, inst, n, excl, dw)?;
@@ -2215,6 +2244,20 @@ impl<'a> Checker<'a>
                     self.bulk_held = 0;
                 }
             }
+            WOp::RcScratch(variant, hold) =>
+            {
+                if !self.in_direct_step || self.tree_depth > 0 { return bail("scratch ref-counted system inside a batch or tree (not generated)"); }
+                if self.bulk_released > 0 || self.bulk_held > 0 || !self.sys.doomed.is_empty() { return bail("scratch ref-counted system while other signals await their collection (not generated)"); }
+                self.guaranteed_gc();
+                let Some(Ev::RcScratch { uid, mid, after }) = self.peek()?.cloned() else { return self.unexpected("scratch ref-counted system observation"); };
+                if uid != u { return self.unexpected("scratch ref-counted system observation"); }
+                self.advance()?;
+                self.stats.rc_scratch += 1;
+                let route = ["spawn_rc_system_command", "spawn_rc_system_command_from", "spawn_rc_system", "spawn_rc_system_from"][*variant as usize % 4];
+                if mid && !*hold { fail!(self, "C10", "autodespawn-leak", &["C07"], "a system spawned with {route} survived the garbage collection that followed the drop of every clone of its signal"); }
+                if !mid && *hold { fail!(self, "C10", "premature-autodespawn", &["C07"], "a system spawned with {route} was despawned by a garbage collection (or never existed) while a clone of its signal was still held"); }
+                if after { fail!(self, "C10", "autodespawn-leak", &["C07"], "a system spawned with {route} exists after its last signal clone was dropped and a garbage collection ran"); }
+            }
             WOp::SigBulk(n, m) =>
             {
                 if !self.in_direct_step { return bail("bulk signal op inside a batch or tree (not generated)"); }
@@ -2237,6 +2280,17 @@ impl<'a> Checker<'a>
             }
             WOp::Flush => {}
             WOp::KillInst(i) => { if self.insts[*i as usize].known { self.kill_inst(*i); } }
+            WOp::DropInstSig(i) =>
+            {
+                // the only clone of a ref-counted system command's signal: the system goes with the next collection
+                let ti = *i as usize;
+                if self.prog.insts[ti].rc && !self.insts[ti].sig_released
+                {
+                    self.insts[ti].sig_released = true;
+                    self.stats.rc_inst_released += 1;
+                    if self.insts[ti].alive && !self.insts[ti].doomed { self.insts[ti].doomed = true; self.stats.doomed_insts += 1; }
+                }
+            }
             WOp::SysEvent(i, p) => { if self.insts[*i as usize].known { self.payload_issue(u); self.do_sys_event(*i, *p, u)?; } }
             WOp::Broadcast(p) => { self.payload_issue(u); self.do_broadcast(*p, u)?; }
             WOp::EntityEvent(s, p) => { let e = self.pre_ent.take().unwrap_or(slot(self, *s)); self.payload_issue(u); self.do_entity_event(e, *p, u)?; }
@@ -2303,6 +2357,15 @@ impl<'a> Checker<'a>
                 let k = *k as usize % 4;
                 let e = slot(self, *s);
                 if self.sys.spawned[k].is_none() && self.ents[e].alive && !self.sys.on_ent.iter().any(|x| *x == Some(e)) { self.sys.spawned[k] = Some((*key % crate::sysfam::NKEYS, true)); self.sys.on_ent[k] = Some(e); }
+                else if matches!(self.sys.spawned[k], Some((_, true))) && self.sys.on_ent[k] == Some(e) && self.ents[e].alive
+                {
+                    // inserting again into the entity that hosts this very slot's system: a new registration with a state of its own
+                    let state = crate::sysfam::ST_SPAWNED + k as u8;
+                    if self.sys.running.contains(&state) { return bail("a spawned system was inserted again while it runs (not judged)"); }
+                    self.sys.spawned[k] = Some((*key % crate::sysfam::NKEYS, true));
+                    self.sys.counts.remove(&state);
+                    self.stats.sys_reinserted += 1;
+                }
             }
             WOp::Acc(kind, s, c, v) => self.acc(*kind, slot(self, *s), *c, *v, u)?,
             WOp::ResAcc(kind, r, v) =>
@@ -2498,6 +2561,7 @@ impl<'a> Checker<'a>
                 Step::AppSetup => { self.stats.app_setup_again += 1; }
             }
             self.expect_tolerant(|e| matches!(e, Ev::StepEnd(x) if *x == i), "step end")?;
+            for i in std::mem::take(&mut self.gc_overdue_insts) { let t = &mut self.insts[i]; if t.doomed && t.alive && !t.busy { t.alive = false; } }
             for e in std::mem::take(&mut self.gc_overdue)
             {
                 if self.ents[e].alive
@@ -2560,6 +2624,7 @@ impl<'a> Checker<'a>
             if t.alive && !t.doomed && !t.limbo && !*alive
             {
                 let persistent = !self.regs.iter().any(|r| r.inst == i as Inst && r.refcounted);
+                if self.prog.insts[i].rc { fail!(self, "C10", "premature-autodespawn", &["C07"], "ref-counted system command {i} is gone after step {step} although the clone of its signal still exists"); }
                 if persistent { fail!(self, "C07", "persistent-despawned", &["C16", "C13"], "instance {i} is gone after step {step} although nothing despawned it"); }
                 fail!(self, "C07", "reactor-premature-despawn", &[], "ref-counted instance {i} is gone after step {step} while a trigger is still registered");
             }
@@ -2567,6 +2632,7 @@ impl<'a> Checker<'a>
             {
                 if t.once_fired { fail!(self, "C15", "once-entity-leaked", &["C07"], "one-off reactor {i} still exists after it ran (step {step})"); }
                 if t.chain_doomed { fail!(self, "C11", "gc-chain-not-settled", &["C07", "C10"], "ref-counted instance {i} lost its last handle when a garbage collection despawned its trigger entity, but that collection left it alive: its despawn is still pending after step {step}"); }
+                if self.prog.insts[i].rc && t.sig_released { fail!(self, "C10", "autodespawn-leak", &["C07"], "ref-counted system command {i} still exists after step {step} although its signal was dropped before a garbage collection"); }
                 fail!(self, "C07", "reactor-leaked", &["C15"], "instance {i} still exists after step {step}; it should have been despawned");
             }
             if !*alive && !t.canary
@@ -2768,7 +2834,7 @@ impl<'a> Checker<'a>
                     if o2 != out { fail!(self, "C17", "syscall-return", &[], "call through {kind:?} key {key} value {value} returned {o2:?}, expected {out:?}"); }
                     self.advance()?;
                 }
-                other => fail!(self, "C17", "syscall-effects-late", &["C09"], "call through {kind:?} key {key}: expected the call to return now (all queued commands applied), observed {other:?}"),
+                other => fail!(self, "C17", "syscall-effects-late", &["C09", "C02"], "call through {kind:?} key {key}: expected the call to return now (all queued commands applied), observed {other:?}"),
             }
         }
         Ok(())
